@@ -132,6 +132,45 @@ def appendOffenders (rs : List AppendRow) : List String :=
 def hasAppend (rs : List AppendRow) (pkg func operand : String) (h : AppendHow) : Bool :=
   rs.any (fun r => r.pkg == pkg && r.func == func && r.operand == operand && r.how == h)
 
+/-! ### evaluation must not write node state; process-wide configuration calls (round 4) -/
+
+inductive NodePhase where
+  | setup   -- TypeTransform… / Set… / Adopt… / PostProcess…: the query is being built or adjusted by its one owner
+  | eval    -- everything else: Eval…, Accept, String, IsConst, getters — may run in many read transactions at once
+  deriving DecidableEq, Repr
+
+/-- a write to receiver state in a method of an ast node type (a type of package ast with a method Accept or Eval…) -/
+structure NodeWrite where
+  typ : String
+  method : String
+  field : String
+  how : WriteHow
+  phase : NodePhase
+  deriving Repr
+
+/-- reviewed exceptions (type, method, field, reason): none on the current tree — per-evaluation state (set cursors, the
+    current row) lives in the `Symbols` argument, i.e. the row cursor of the scan, not in the node -/
+def reviewedNodeWrites : List (String × String × String × String) := []
+
+def NodeWrite.ok (w : NodeWrite) : Bool :=
+  w.phase != .eval || reviewedNodeWrites.any (fun e => e.1 == w.typ && e.2.1 == w.method && e.2.2.1 == w.field)
+
+def evalDoesNotWriteNodes (ws : List NodeWrite) : Bool := ws.all NodeWrite.ok
+
+/-- a call from the four packages into another module that sets process-wide state (deny-list in
+    extract/globals_nodes.go), or an assignment to a package-level variable of another module -/
+structure ConfigCall where
+  pkg : String
+  func : String
+  callee : String
+  inInit : Bool
+  deriving Repr
+
+def noProcessWideConfig (cs : List ConfigCall) : Bool := cs.all (·.inInit)
+
+def hasNodeWrite (ws : List NodeWrite) (typ method field : String) (ph : NodePhase) : Bool :=
+  ws.any (fun w => w.typ == typ && w.method == method && w.field == field && w.phase == ph)
+
 def hasClosure (cs : List Closure) (pkg func : String) : Bool :=
   cs.any (fun c => c.pkg == pkg && c.func == func)
 
